@@ -121,6 +121,7 @@ func runMulti(list, tier, repo, verif string) int {
 		return 1
 	}
 	rc := 0
+	factProgram = prog
 	var shared *TmplAll
 	for _, id := range ids {
 		spec := registry[id]
@@ -194,6 +195,7 @@ func runProp(spec *PropSpec, tier, repo, verif, replayRule, replayConstruct, rul
 		return 1
 	}
 	c.Prog = prog
+	factProgram = prog
 	checkProdPackages(c)
 	spec.Run(c)
 	if tier == "thorough" && spec.Thorough != nil {
